@@ -583,6 +583,56 @@ pub fn run(ctx: &mut Ctx) {
 
     // the deprecated alias on VALID records of every content type around 2^14 and the record-length cap
     ctx.floor("alias.band", 60);
+    // the alias on buffers whose TOTAL length is a multiple of 2^16 (1, 2, 3, 4, 16, 256, 2^15 and 2^16 times 65536) give or
+    // take a few bytes, with a small well-formed record of each content type at the start: lengths derived from the
+    // whole input and narrowed to 16 or 32 bits are 0, 1, 2 .. there
+    ctx.floor("alias.total-size", 300);
+    ctx.sweep("alias-total-size-coincidence", 5, |ctx, idx| {
+        let mut r = crate::rng::Rng::new(idx ^ 0xA11C);
+        let ct = [0x14u8, 0x15, 0x16, 0x17, 0x18][idx as usize];
+        let payload: Vec<u8> = match ct {
+            0x14 => vec![1],
+            0x15 => vec![1, 0, 2, 40],
+            0x16 => { let mut v = AHs::HelloRequest.to_bytes(); v.extend(AHs::Finished(r.bytes(12)).to_bytes()); v }
+            0x17 => r.bytes(33),
+            _ => { let mut v = vec![1u8, 0, 5]; v.extend(r.bytes(5 + 16)); v }
+        };
+        let rec = refenc::record(ct, 0x0303, &payload);
+        let mut buf = match gen::lazy_zeroed((1usize << 32) + 16) {
+            Some(b) => b,
+            None => {
+                ctx.unjudged("giant-buffer-not-allocatable");
+                return;
+            }
+        };
+        buf[..rec.len()].copy_from_slice(&rec);
+        for k in [1usize, 2, 3, 4, 16, 256, 1 << 15, 1 << 16] {
+            for d in [-3i64, -2, -1, 0, 1, 2, 3, 4, 5] {
+                let total = ((k as i64) * 65536 + d) as usize;
+                let input = &buf[..total];
+                #[allow(deprecated)]
+                let a = tls_parser(input);
+                let b = parse_tls_plaintext(input);
+                ctx.eval();
+                ctx.count("alias.total-size");
+                let same = match (&a, &b) {
+                    (Ok((r1, v1)), Ok((r2, v2))) => veq(v1, v2) && r1.len() == r2.len() && r1.as_ptr() == r2.as_ptr(),
+                    (Err(Err::Incomplete(x)), Err(Err::Incomplete(y))) => x == y,
+                    (Err(Err::Error(x)), Err(Err::Error(y))) | (Err(Err::Failure(x)), Err(Err::Failure(y))) => x.code == y.code && x.input.len() == y.input.len(),
+                    _ => false,
+                };
+                if !same || !b.is_ok() {
+                    ctx.violation(
+                        format!("c16:tls_parser:{}", if same { "record-at-start-of-large-buffer-rejected" } else { "differs-from-parse_tls_plaintext" }),
+                        json!({"family": "alias-total-size-coincidence", "content_type": ct, "payload_len": payload.len(), "total_input_len": total, "alias": classify(&a).show(), "plaintext": classify(&b).show()}),
+                    );
+                    return;
+                }
+            }
+        }
+        ctx.shape(&("alias-total", ct));
+    });
+
     ctx.sweep("alias-size-band", 5 * 8 * 2, |ctx, idx| {
         let mut r = crate::rng::Rng::new(idx ^ 0xA11B);
         let ct = [0x14u8, 0x15, 0x16, 0x17, 0x18][(idx % 5) as usize];
